@@ -17,6 +17,9 @@ ERROR awkward_UnionArray_regular_index(
   }
   for (int64_t i = 0;  i < length;  i++) {
     C tag = fromtags[i];
+    if (tag < 0  ||  (int64_t)tag >= size) {
+      return failure("tags[i] out of range", i, kSliceNone, FILENAME(__LINE__));
+    }
     toindex[(size_t)i] = current[(size_t)tag];
     current[(size_t)tag]++;
   }
